@@ -1,5 +1,6 @@
 #!/bin/bash
-# NOTE: to stop a run, kill the python3 child (pkill -f "python3 -"), not only this shell.
+# NOTE: to stop a run, kill the python3 child BY PID (ps aux | grep "python3 -"), not only this shell;
+# pkill -f with a pattern that also occurs in your own command line kills your shell instead.
 # Must-fail corpus: applies every patch of selftest/mutants (and seeded/*/patch.diff) to /repo's
 # working tree, runs the owning property's quick check, reverts, and records whether the
 # check reported a VIOLATION. Usage: tools/selftest.sh [ids...]  -> writes selftest/results.json
@@ -14,11 +15,12 @@ items=[]
 for m in ms:
     if isinstance(m,dict) and 'id' in m:
         items.append((m['id'], m['property'], '/verif/selftest/mutants/%s.patch'%m['id'], m.get('expect','fail'), m.get('description', m.get('change',''))))
-for d in sorted(glob.glob('/verif/seeded/*/meta.json'))+sorted(glob.glob('/verif/seeded2/*/meta.json'))+sorted(glob.glob('/verif/seeded3/*/meta.json'))+sorted(glob.glob('/verif/seeded4/*/meta.json')):
+for d in sorted(glob.glob('/verif/seeded/*/meta.json'))+sorted(glob.glob('/verif/seeded2/*/meta.json'))+sorted(glob.glob('/verif/seeded3/*/meta.json'))+sorted(glob.glob('/verif/seeded4/*/meta.json'))+sorted(glob.glob('/verif/seeded5/*/meta.json')):
     meta=json.load(open(d)); sid=os.path.basename(os.path.dirname(d))
     if '/seeded2/' in d: sid='S2-'+sid
     if '/seeded3/' in d: sid='S3-'+sid
     if '/seeded4/' in d: sid='S4-'+sid
+    if '/seeded5/' in d: sid='S5-'+sid
     items.append((sid, meta['property'], os.path.dirname(d)+'/patch.diff', 'fail', meta.get('breaks','')))
 want=set(sys.argv[1:])
 res=[]
